@@ -28,5 +28,4 @@ Definition x_gen_ms_12 := gen_master_secret_tls_12.
 Definition x_make_info := make_info.
 Definition x_run_tls (C : Crypto) (o : options) := run_tls C table parts o.
 Definition x_write_file := write_file.
-Definition x_extract := extract.
-Extraction "model.ml" x_run_tls x_write_file x_extract x_derive_session_keys x_dev_initial_keys x_dev_quic_keys x_key_update x_prf_ssl_30 x_prf_tls_10_11 x_prf_tls_12 x_gen_ms_12 x_make_info x_cksum x_occ x_parse_frames x_varint x_varint_len x_full_pn x_rfc_pn x_quic_nonce x_suite x_denote x_iana index from_be to_be Z.add Z.mul Z.div Z.modulo Z.eqb Z.ltb.
+Extraction "model.ml" x_run_tls x_write_file x_derive_session_keys x_dev_initial_keys x_dev_quic_keys x_key_update x_prf_ssl_30 x_prf_tls_10_11 x_prf_tls_12 x_gen_ms_12 x_make_info x_cksum x_occ x_parse_frames x_varint x_varint_len x_full_pn x_rfc_pn x_quic_nonce x_suite x_denote x_iana index from_be to_be Z.add Z.mul Z.div Z.modulo Z.eqb Z.ltb.
